@@ -35,6 +35,9 @@ def obligations(tier):
                               engine='real', unwind=8, timeout=to, clause='re-projection t = Xw, X -= tp\'', stubs=R, real={'nomissing': True}))
     obs.append(Ob(id='ypredictor_reused_output/n2ny2nlv2/a2', harness='C03/predict.c', tus=T, defs={'HP_WHICH': 0, 'HP_N': 2, 'HP_NY': 2, 'HP_NLV': 2, 'HP_M': 1, 'HP_A': 2, 'HP_PRE': 2, 'HP_PREFILL': 1}, engine='real', unwind=8, timeout=to, clause='y = sum b t q\' back-transformed', stubs=R, real={'nomissing': True}))
     obs.append(Ob(id='scorepredictor_reused_output/n2m2nlv2/a2', harness='C03/predict.c', tus=T, defs={'HP_WHICH': 1, 'HP_N': 2, 'HP_NY': 1, 'HP_NLV': 2, 'HP_M': 2, 'HP_A': 2, 'HP_PRE': 2, 'HP_PREFILL': 1}, engine='real', unwind=8, timeout=to, clause='re-projection t = Xw, X -= tp\'', stubs=R, real={'nomissing': True}))
+    for (n, m, ny) in ([(2, 1, 2), (3, 2, 2), (3, 1, 3)] if not th else [(2, 1, 2), (3, 2, 2), (3, 1, 3), (4, 2, 3)]):
+        obs.append(Ob(id=f'lv_start/{n}x{m}ny{ny}', harness='C03/lv_start.c', tus=T, defs={'HP_N': n, 'HP_M': m, 'HP_NY': ny}, engine='real', unwind=8, timeout=to, clause='start vector = response of largest variance (a constant response is never the start vector unless all are constant)',
+                      stubs=R, real={'nomissing': True, 'tactics': ('default', 'nlsat')}))
     for lem in (5, 6, 7, 8, 9):
         for (n, m) in ([(2, 2), (3, 2)] if not th else [(2, 2), (3, 2), (3, 3), (4, 3)]):
             obs.append(Ob(id=f'lemma{lem}/{n}x{m}', harness='C01/lemmas.c', tus=['memwrapper'], defs={'HP_LEMMA': lem, 'HP_N': n, 'HP_M': m}, engine='real', unwind=6, timeout=to,
